@@ -548,7 +548,11 @@ def verdict(prop, mod, tier, seed, groups, results, t0, a):
     if vcount:
         exit_code = 1
     if canaries == 0 and any(r.get('kind') == 'proof' for r in results) and not broken and a.group is None:
-        broken.append('no canary obligation was refuted (vacuity guard)')
+        if left_any:
+            # every symbolic execution stopped at a limit of the tool before its canary: nothing was proved, nothing is claimed
+            undecided.append('no canary obligation was generated because every proof group left the modelled fragment')
+        else:
+            broken.append('no canary obligation was refuted (vacuity guard)')
     for n_ in abandoned_notes[:8]:
         undecided.append('path abandoned because its path condition became unsatisfiable (contradictory harness precondition => vacuous obligations): %s' % n_)
     if broken:
